@@ -118,11 +118,15 @@ Proof.
   - exact H.
   - exact H.
   - cbn [fst]. unfold store_step. destruct (inflight s); [|exact H]. destruct (flushing s) as [[g fb]|]; [|exact H].
-    destruct (nth_error fb (N.to_nat i)) as [[k v]|]; [|exact H]. eapply binv_frame; [exact H|..]; reflexivity.
+    destruct (nth_error fb (N.to_nat i)) as [[k v]|]; [|exact H]. destruct (is_cne (fpne s) (k, v)); [exact H|]. eapply binv_frame; [exact H|..]; reflexivity.
   - cbn [fst]. unfold complete_exist. destruct (inflight s) eqn:Ei; [|exact H].
     eapply binv_frame; [apply (binv_complete s false H)|..]; reflexivity.
   - cbn [fst]. unfold tm_start. destruct (_ && _); [|exact H]. eapply binv_frame; [exact H|..]; reflexivity.
   - cbn [fst]. eapply binv_frame; [exact H|..]; reflexivity.
+  - exact H.
+  - destruct (is_nil v); cbn [fst]; [exact H|].
+    assert (Hk : k <> []) by (apply is_nil_false, Bool.negb_true_iff; exact Hok).
+    eapply binv_frame; [apply (binv_write s k v Hk H)|..]; reflexivity.
   - exact H.
 Qed.
 
